@@ -648,6 +648,11 @@ func tbPerturb(i int, e tbEntry, why string) *tbLabel {
 			return nil
 		}
 		ro.Disabled = true
+	case "enable":
+		if !ro.Disabled {
+			return nil
+		}
+		ro.Disabled = false
 	case "pause":
 		ro.Paused = !ro.Paused
 	default:
@@ -699,7 +704,39 @@ func tbWalkFair(c *Ctx, budget int) {
 		js, ok = tbDo(c, js, l, "fair")
 		return ok
 	}
-	for r := 0; r < 34 && c.Count-start < budget; r++ {
+	quiescent := func() bool {
+		if js.TR != nil && (js.TR.Phase != "Healthy" || len(js.TR.Holders) > 0 || js.TR.Deleting) {
+			return false
+		}
+		for _, e := range js.Ros {
+			if e.Gone {
+				continue
+			}
+			if (e.W.Ro.Phase != "Healthy" && e.W.Ro.Phase != "Disabled") || e.W.BR != nil || (e.W.WL != nil && (e.W.WL.InProgressAnno || e.W.WL.StableRev != e.W.WL.CanaryRev)) {
+				return false
+			}
+		}
+		return true
+	}
+	cycles := 0
+	for r := 0; r < 44 && c.Count-start < budget; r++ {
+		// everything is back at rest: start another cycle of releases (at most three), then stop
+		last := 0
+		for i := range finishAt {
+			if finishAt[i] > last {
+				last = finishAt[i]
+			}
+		}
+		if r > last+1 && quiescent() {
+			cycles++
+			if cycles >= 3 || r > 30 {
+				break
+			}
+			for i := range releaseAt {
+				releaseAt[i] = r + c.Rng.Intn(4)
+				finishAt[i] = releaseAt[i] + 3 + c.Rng.Intn(8)
+			}
+		}
 		if ev, ok := events[r]; ok {
 			if !do(ev) {
 				return
@@ -713,7 +750,9 @@ func tbWalkFair(c *Ctx, budget int) {
 				p = tbPerturb(i, e, "release")
 			case r == finishAt[i]:
 				p = tbPerturb(i, e, pickS(c, "finish", "finish", "finish", "rollback", "disable"))
-			case e.W.BR != nil && c.Rng.Intn(2) == 0:
+			case e.W.Ro.Phase == "Disabled" && r+1 >= releaseAt[i] && r < finishAt[i]:
+				p = tbPerturb(i, e, "enable")
+			case e.W.BR != nil && c.Rng.Intn(3) != 0:
 				p = tbPerturb(i, e, "brProgress")
 			case e.W.Ro.Phase == "Healthy" && e.W.WL != nil && !e.W.WL.InProgressAnno && e.W.WL.StableRev != e.W.WL.CanaryRev:
 				p = tbPerturb(i, e, "promoted")
@@ -753,7 +792,7 @@ func tbWalkRandom(c *Ctx, budget int) {
 		case x < 66:
 			l = tbLabel{K: "tick"}
 		case x < 90:
-			why := pickS(c, "release", "release", "finish", "finish", "finish", "rollback", "brProgress", "brProgress", "promoted", "disable", "pause")
+			why := pickS(c, "release", "release", "finish", "finish", "finish", "rollback", "brProgress", "brProgress", "brProgress", "promoted", "disable", "enable", "pause")
 			if p := tbPerturb(i, js.Ros[i], why); p != nil {
 				l = *p
 			} else {
